@@ -544,3 +544,39 @@ def guarded_attribute_access(m: Model, r: Report, rid: str, fn, var: str, base_q
                     f"`{var}.{attr}` is read under {[('' if p else 'not ') + ast.unparse(t) for t, p in conds]}, which lets {bad[:4]} through, but these classes have no "
                     f"attribute `{attr}`: AttributeError at run time (here: the row of that exchange is lost)", loc=f"{fn.module.relpath}:{st.lineno}")
     return n
+
+
+def security_access_table(m: Model):
+    """RandomUDSServer.security_access evaluated over the finite domain (request kind) x (pending seed: none / type 1 / type 3) x (requested type 2 / 4)
+    x (key right / wrong): [(case, outcome, pending seed afterwards)]. Outcome: ('SecurityAccessResponse', ...), ('NRC', code), ('raise', name)."""
+    from sa import miniterp
+    sa = m.require_function("gallia.services.uds.server.RandomUDSServer.security_access")
+    rpar = sa.params()[1] if len(sa.params()) > 1 else "request"
+    rows = []
+    for kind in ("RequestSeedRequest", "SendKeyRequest"):
+        for last in (None, 1, 3):
+            for rtype in ((1, 3) if kind == "RequestSeedRequest" else (2, 4)):
+                for key in ((b"K",) if kind == "RequestSeedRequest" else (b"SEED", b"WRONG")):
+                    pending = None if last is None else miniterp.Obj(security_access_type=last, security_seed=b"SEED")
+                    env = {rpar: "REQ", f"{rpar}.service_id": 0x27, f"{rpar}.security_access_type": rtype, f"{rpar}.security_key": key, f"{rpar}.security_access_data_record": b"",
+                           "self.state.last_sa_response": pending, "UDSErrorCodes.requestSequenceError": "requestSequenceError", "UDSErrorCodes.invalidKey": "invalidKey"}
+
+                    def oracle(call, env_, kind=kind):
+                        f = ast.unparse(call.func)
+                        if f == "isinstance" and len(call.args) == 2 and ast.unparse(call.args[0]) == rpar:
+                            names = [ast.unparse(x).split(".")[-1] for x in (call.args[1].elts if isinstance(call.args[1], ast.Tuple) else [call.args[1]])]
+                            return kind in names or "_SecurityAccessRequest" in names
+                        if f.split(".")[-1] == "SecurityAccessResponse":
+                            return ("SecurityAccessResponse",) + tuple(miniterp.eval_expr(a, env_, oracle) for a in call.args)
+                        if f.split(".")[-1] == "NegativeResponse":
+                            return ("NRC", miniterp.eval_expr(call.args[1], env_, oracle)) if len(call.args) == 2 else NotImplemented
+                        if f.endswith("random_payload") or f.endswith("randbytes") or f == "RNG":
+                            return "SEED-BYTES"
+                        return NotImplemented
+                    try:
+                        ret, env2 = miniterp.run_function(sa.node, env, oracle)
+                        out = miniterp.eval_expr(ret.value, env2, oracle) if ret is not None and ret.value is not None else None
+                    except miniterp.Raised as ex:
+                        out, env2 = ("raise", ast.unparse(ex.node.exc).split("(")[0] if ex.node.exc is not None else "?"), env
+                    rows.append(((kind, last, rtype, key), out, env2.get("self.state.last_sa_response")))
+    return sa, rows
